@@ -615,6 +615,10 @@ pub fn for_each_case(entry: &str, thorough: bool, f: &mut dyn FnMut(&[u8])) {
 			let cat = crate::checks::c11::catalogue();
 			for (i, (_, t)) in cat.iter().enumerate() {
 				let raw = mvt::encode_tile(t);
+				// the catalogue also holds tiles of 100 KB and more (thousands of layers); byte mutations are for the small ones
+				if raw.len() > 4096 {
+					continue;
+				}
 				if raw.len() <= 160 || thorough || i % 4 == 0 {
 					byte_mutations(&raw, thorough && raw.len() <= 80, f);
 				}
